@@ -21,7 +21,18 @@
  *        other number (bits of the double, text = what JsonEncode prints for it: oracle for the number codec),
  *        s<hexutf8>, a<n> then n values, o<n> then n times k<hexutf8> value
  *
+ *   D <hexpayload> | dict <valuetokens>  |  rejected  |  null  |  other
+ *        JsonRpc::DecodeMessage on the payload: a non-null dictionary, an exception, a null pointer
+ *   M <s|c> <max> <hexstream> <cuts> | msg <valuetokens> <restlen> | rejected <restlen> | err <code> <restlen> | eof
+ *        one iteration of JsonRpcConnection::HandleIncomingMessages over the TLS connection:
+ *        JsonRpc::ReadMessage, JsonRpc::DecodeMessage, message->Get("method")
+ *   X <signal> <operation line>       printed by the parent: the child died (signal; 0 = exit code != 0, 14 = hang)
+ *        while processing that operation
+ *
  * Modes:  gen --seed S --tier quick|thorough     ops FILE
+ * The parent process only generates operation lines (it never calls the code under test); batches of them
+ * are executed in forked children, so that a crash/abort/hang of the real code is attributed to the
+ * operation being processed and the remaining operations still run.
  */
 #include "common.hpp"
 #include "base/netstring.hpp"
@@ -39,6 +50,9 @@
 #include <cmath>
 #include <fstream>
 #include <thread>
+#include <sys/mman.h>
+#include <sys/wait.h>
+#include <signal.h>
 #include <functional>
 
 using namespace icinga;
@@ -102,6 +116,19 @@ static int ErrCode(const std::string& what)
 	if (what.find("Max data length exceeded") != std::string::npos) return 5;
 	if (what.find("missing ,") != std::string::npos) return 6;
 	return 9;
+}
+
+/* ---------------------------------------------------------------- emit / fork machinery */
+
+static bool l_Emit = false;                 /* parent: Do*() only record the operation line */
+static std::vector<std::string> l_Batch;
+static size_t l_BatchMax = 5000;
+static void FlushBatch();
+
+static void Emit(const std::string& line)
+{
+	l_Batch.push_back(line);
+	if (l_Batch.size() >= l_BatchMax) FlushBatch();
 }
 
 /* cut `s` into chunks of the given sizes (zero sizes skipped, remainder = last chunk), each at most 4096 bytes */
@@ -203,6 +230,7 @@ static std::string RunBuffered(char kind, long long max, const std::string& byte
 
 static void DoFramed(char kind, long long max, const std::string& payloads, const std::string& cuts)
 {
+	if (l_Emit) { Emit(std::string("F ") + kind + " " + std::to_string(max) + " " + payloads + " " + cuts); return; }
 	/* the real writer produces the stream */
 	FIFO::Ptr w = new FIFO();
 	if (payloads != "-")
@@ -219,6 +247,7 @@ static void DoFramed(char kind, long long max, const std::string& payloads, cons
 
 static void DoBytes(char kind, long long max, const std::string& hex, const std::string& cuts)
 {
+	if (l_Emit) { Emit(std::string("B ") + kind + " " + std::to_string(max) + " " + hex + " " + cuts); return; }
 	std::string bytes;
 	if (!UnHex(hex, bytes)) { fprintf(stderr, "bad hex\n"); _exit(2); }
 	std::string st = RunBuffered(kind, max, bytes, cuts);
@@ -257,8 +286,12 @@ struct Tls {
 
 static Tls *l_Tls;
 
-static void DoTls(char variant, long long max, const std::string& hex, const std::string& cuts)
+static void Render(const Value& v, std::string& out);
+
+/* decode = false: T line (frame layer only); decode = true: M line (ReadMessage + DecodeMessage + use of the result) */
+static void DoTls(char variant, long long max, const std::string& hex, const std::string& cuts, bool decode = false)
 {
+	if (l_Emit) { Emit(std::string(decode ? "M " : "T ") + variant + " " + std::to_string(max) + " " + hex + " " + cuts); return; }
 	std::string bytes;
 	if (!UnHex(hex, bytes)) { fprintf(stderr, "bad hex\n"); _exit(2); }
 	Tls& t = *l_Tls;
@@ -294,7 +327,20 @@ static void DoTls(char variant, long long max, const std::string& hex, const std
 	auto body = [&](std::function<String()> read) {
 		try {
 			String p = read();
-			obs = "ok " + Hex(p.GetData());
+			if (!decode) {
+				obs = "ok " + Hex(p.GetData());
+			} else {
+				/* jsonrpcconnection.cpp:99-100 */
+				try {
+					Dictionary::Ptr message = JsonRpc::DecodeMessage(p);
+					String method = message->Get("method");
+					std::string r;
+					Render(message, r);
+					obs = "msg " + r;
+				} catch (const std::exception&) {
+					obs = "rejected";
+				}
+			}
 		} catch (const std::invalid_argument& ex) {
 			obs = "err " + std::to_string(ErrCode(ex.what()));
 		} catch (const boost::system::system_error&) {
@@ -327,7 +373,7 @@ static void DoTls(char variant, long long max, const std::string& hex, const std
 	if (writer.joinable()) { server->lowest_layer().close(ec); writer.join(); }
 	client->lowest_layer().close(ec);
 	server->lowest_layer().close(ec);
-	printf("T %c %lld %s %s | %s\n", variant, max, hex.c_str(), cuts.c_str(), obs.c_str());
+	printf("%c %c %lld %s %s | %s\n", decode ? 'M' : 'T', variant, max, hex.c_str(), cuts.c_str(), obs.c_str());
 }
 
 /* ---------------------------------------------------------------- JSON */
@@ -347,9 +393,11 @@ static void Render(const Value& v, std::string& out)
 			char b[32];
 			snprintf(b, sizeof b, "d%016llx:", (unsigned long long)bits);
 			out += b;
-			std::string txt;
-			try { txt = JsonEncode(v).GetData(); } catch (...) { txt = "?"; }
-			out += Hex(txt);
+			if (!l_Emit) {   /* the parent never calls the code under test; the executing child fills the oracle in */
+				std::string txt;
+				try { txt = JsonEncode(v).GetData(); } catch (...) { txt = "?"; }
+				out += Hex(txt);
+			}
 		}
 		return;
 	}
@@ -424,6 +472,7 @@ static void DoJsonValue(const Value& v)
 {
 	std::string orig, back;
 	Render(v, orig);
+	if (l_Emit) { Emit("J " + orig); return; }
 	String enc = JsonEncode(v);
 	try {
 		Value dec = JsonDecode(enc);
@@ -436,6 +485,7 @@ static void DoJsonValue(const Value& v)
 
 static void DoJsonText(const std::string& hex)
 {
+	if (l_Emit) { Emit("K " + hex); return; }
 	std::string txt;
 	if (!UnHex(hex, txt)) { fprintf(stderr, "bad hex\n"); _exit(2); }
 	std::string obs;
@@ -449,6 +499,70 @@ static void DoJsonText(const std::string& hex)
 		obs = "err";
 	}
 	printf("K %s | %s\n", hex.c_str(), obs.c_str());
+}
+
+/* JsonRpc::DecodeMessage (jsonrpc.cpp:147-157) on one payload */
+static void DoMessage(const std::string& hex)
+{
+	if (l_Emit) { Emit("D " + hex); return; }
+	std::string txt;
+	if (!UnHex(hex, txt)) { fprintf(stderr, "bad hex\n"); _exit(2); }
+	std::string obs;
+	try {
+		Dictionary::Ptr message = JsonRpc::DecodeMessage(String(txt));
+		if (!message) obs = "null";
+		else { std::string r; Render(message, r); obs = "dict " + r; }
+	} catch (const std::exception&) {
+		obs = "rejected";
+	}
+	printf("D %s | %s\n", hex.c_str(), obs.c_str());
+}
+
+/* compact JSON text of a value, written by the harness itself (mutation base for hostile texts; the
+ * parent must not call JsonEncode) */
+static void MiniJson(const Value& v, std::string& out)
+{
+	auto str = [&](const String& s) {
+		/* ensure_ascii like the encoder (the strings generated here are valid UTF-8) */
+		const std::string& d = s.GetData();
+		out += '"';
+		for (size_t i = 0; i < d.size();) {
+			unsigned char c = d[i];
+			uint32_t cp; int n;
+			if (c < 0x80) { cp = c; n = 1; }
+			else if (c < 0xE0) { cp = c & 0x1F; n = 2; }
+			else if (c < 0xF0) { cp = c & 0x0F; n = 3; }
+			else { cp = c & 0x07; n = 4; }
+			for (int k = 1; k < n && i + k < d.size(); k++) cp = (cp << 6) | ((unsigned char)d[i + k] & 0x3F);
+			i += n;
+			char b[16];
+			if (cp == '"' || cp == '\\') { out += '\\'; out += (char)cp; }
+			else if (cp < 0x20 || cp >= 0x7F) {
+				if (cp <= 0xFFFF) snprintf(b, sizeof b, "\\u%04x", cp);
+				else snprintf(b, sizeof b, "\\u%04x\\u%04x", 0xD7C0 + (cp >> 10), 0xDC00 + (cp & 0x3FF));
+				out += b;
+			}
+			else out += (char)cp;
+		}
+		out += '"';
+	};
+	if (v.GetType() == ValueEmpty) out += "null";
+	else if (v.IsBoolean()) out += v.ToBool() ? "true" : "false";
+	else if (v.IsNumber()) { char b[40]; snprintf(b, sizeof b, "%.17g", v.Get<double>()); out += b; }
+	else if (v.IsString()) str(v.Get<String>());
+	else if (v.IsObjectType<Array>()) {
+		Array::Ptr a = v; ObjectLock olock(a);
+		out += '[';
+		bool first = true;
+		for (const Value& e : a) { if (!first) out += ','; first = false; MiniJson(e, out); }
+		out += ']';
+	} else if (v.IsObjectType<Dictionary>()) {
+		Dictionary::Ptr d = v; ObjectLock olock(d);
+		out += '{';
+		bool first = true;
+		for (const Dictionary::Pair& kv : d) { if (!first) out += ','; first = false; str(kv.first); out += ':'; MiniJson(kv.second, out); }
+		out += '}';
+	}
 }
 
 /* ---------------------------------------------------------------- generators */
@@ -605,7 +719,7 @@ static std::string GenHostileJson(Rng& r)
 		case 3: { int n = (int)r.below(40); for (int i = 0; i < n; i++) s += "[]{}\",:\\u0123dDcCnulltruefalse-+.eE \n"[r.below(37)]; return s; }
 		default: {
 			int budget = 12;
-			s = JsonEncode(GenValue(r, 3, budget)).GetData();
+			MiniJson(GenValue(r, 3, budget), s);
 			if (s.empty()) return s;
 			int m = (int)r.below(5);
 			if (m == 0) s.resize(r.below(s.size() + 1));
@@ -765,45 +879,143 @@ static void Generate(uint64_t seed, bool thorough)
 		DoTls('s', 1048576, Hex(Frame(big)), "-");
 		if (thorough) DoTls('c', 1048576, Hex(Frame(big)), "-");
 	}
+
+	/* --- JSON-RPC messages: DecodeMessage directly, and through ReadMessage over TLS as the receive loop does */
+	static const char *msgs[] = { "null", "42", "-1.5", "\"x\"", "\"\"", "true", "false", "[]", "[1]", "[{}]", "[null]", "{}", "{\"method\":\"x\"}",
+		"{\"jsonrpc\":\"2.0\",\"method\":\"event::Heartbeat\",\"params\":{\"timeout\":120}}", "{\"method\":null}", "{\"method\":1}",
+		" null ", " {} ", "\n{\"a\":1}\n", "", " ", "nul", "nulll", "null null", "{", "}", "{null}", "{\"a\"}", "[{}", "{}{}", "0", "1e999", "\xff", "NULL", "Null" };
+	auto genMsg = [&](Rng& rr) -> std::string {
+		std::string m;
+		switch (rr.below(6)) {
+			case 0: case 1: return msgs[rr.below(sizeof msgs / sizeof *msgs)];
+			case 2: return GenHostileJson(rr);
+			case 3: { int budget = 10; MiniJson(GenValue(rr, 3, budget), m); return m; }           /* any kind of value */
+			default: {                                                                                /* dictionaries */
+				Dictionary::Ptr d = new Dictionary();
+				int n = (int)rr.below(4), budget = 10;
+				if (rr.coin()) d->Set("method", rr.coin() ? Value(GenString(rr)) : GenValue(rr, 1, budget));
+				for (int i = 0; i < n; i++) d->Set(GenString(rr), GenValue(rr, 2, budget));
+				MiniJson(d, m);
+				return m;
+			}
+		}
+	};
+	for (const char *m : msgs) DoMessage(Hex(m));
+	for (int i = 0; i < (thorough ? 200000 : 30000); i++) DoMessage(Hex(genMsg(r)));
+	for (const char *m : msgs) {
+		DoTls('s', -1, Hex(Frame(m)), "-", true);
+		DoTls('c', 1048576, Hex(Frame(m)), "-", true);
+	}
+	for (int i = 0; i < (thorough ? 10000 : 2500); i++) {
+		std::string s;
+		long long max = r.below(3) == 0 ? (long long)r.below(60) : r.coin() ? 1048576 : -1;
+		if (r.below(8) == 0) s = GenHostileStream(r);
+		else { s = Frame(genMsg(r)); if (r.below(4) == 0) s += GenHostileStream(r); }
+		DoTls(r.coin() ? 's' : 'c', max, Hex(s), RandomCuts(r, s.size()), true);
+	}
+}
+
+/* execute one operation line against the real code (child process) */
+static bool ExecLine(const std::string& line)
+{
+	auto w = Words(line);
+	if (w.empty() || w[0][0] == '#') return true;
+	if (w[0] == "T" && w.size() == 5) DoTls(w[1][0], atoll(w[2].c_str()), w[3], w[4]);
+	else if (w[0] == "M" && w.size() == 5) DoTls(w[1][0], atoll(w[2].c_str()), w[3], w[4], true);
+	else if (w[0] == "F" && w.size() == 5) DoFramed(w[1][0], atoll(w[2].c_str()), w[3], w[4]);
+	else if (w[0] == "B" && w.size() == 5) DoBytes(w[1][0], atoll(w[2].c_str()), w[3], w[4]);
+	else if (w[0] == "J" && w.size() == 2) {
+		auto toks = Split(w[1], ',');
+		size_t pos = 0;
+		Value v;
+		if (!ParseTokens(toks, pos, v) || pos != toks.size()) return false;
+		DoJsonValue(v);
+	}
+	else if (w[0] == "K" && w.size() == 2) DoJsonText(w[1]);
+	else if (w[0] == "D" && w.size() == 2) DoMessage(w[1]);
+	else return false;
+	return true;
+}
+
+/* Run the collected operations in forked children.  The child publishes the index of the operation it is
+ * working on in shared memory and flushes its output after every operation; when it dies, the parent prints
+ * `X <signal> <operation>` for that operation and continues with the next one in a fresh child. */
+static void FlushBatch()
+{
+	static volatile size_t *cur = nullptr;
+	if (!cur) {
+		cur = (volatile size_t *)mmap(nullptr, 4096, PROT_READ | PROT_WRITE, MAP_SHARED | MAP_ANONYMOUS, -1, 0);
+		if (cur == MAP_FAILED) { perror("mmap"); _exit(2); }
+	}
+	size_t start = 0;
+	while (start < l_Batch.size()) {
+		fflush(stdout);
+		*cur = start;
+		pid_t pid = fork();
+		if (pid < 0) { perror("fork"); _exit(2); }
+		if (pid == 0) {
+			l_Emit = false;
+			InitIcinga();
+			l_Tls = new Tls();
+			for (size_t i = start; i < l_Batch.size(); i++) {
+				*cur = i;
+				alarm(120);                      /* a hang of the real code ends the child with SIGALRM */
+				if (!ExecLine(l_Batch[i])) { fprintf(stderr, "bad line: %s\n", l_Batch[i].substr(0, 200).c_str()); fflush(stdout); _exit(2); }
+				fflush(stdout);
+			}
+			alarm(0);
+			_exit(0);
+		}
+		int status = 0;
+		while (waitpid(pid, &status, 0) < 0 && errno == EINTR) { }
+		if (WIFEXITED(status) && WEXITSTATUS(status) == 0) break;
+		if (WIFEXITED(status) && WEXITSTATUS(status) == 2) _exit(2);   /* unreadable operation line: harness usage error */
+		size_t i = *cur;
+		int sig = WIFSIGNALED(status) ? WTERMSIG(status) : 0;
+		/* a partially written line of the dead child may precede this one: start on a fresh line */
+		printf("\nX %d %s\n", sig, l_Batch[i].c_str());
+		start = i + 1;
+	}
+	fflush(stdout);
+	l_Batch.clear();
 }
 
 int main(int argc, char **argv)
 {
 	if (argc < 2) { fprintf(stderr, "usage: h_c20 gen|ops ...\n"); return 2; }
-	InitIcinga();
-	l_Tls = new Tls();
 	static char outbuf[1 << 20];
 	setvbuf(stdout, outbuf, _IOFBF, sizeof outbuf);
 
 	std::string mode = argv[1];
+	l_Emit = true;
 	if (mode == "gen") {
 		uint64_t seed = strtoull(argOr(argc, argv, "--seed", "1"), nullptr, 10);
 		std::string tier = argOr(argc, argv, "--tier", "quick");
+		l_BatchMax = tier == "thorough" ? 20000 : 5000;
 		Generate(seed, tier == "thorough");
 	} else if (mode == "ops") {
 		if (argc < 3) return 2;
 		std::ifstream f(argv[2]);
 		if (!f) { perror("open"); return 2; }
+		l_BatchMax = 1000000;
 		std::string line;
 		while (std::getline(f, line)) {
+			/* an X line replays the operation it names */
+			if (line.size() > 2 && line[0] == 'X' && line[1] == ' ') {
+				size_t sp = line.find(' ', 2);
+				if (sp == std::string::npos) continue;
+				line = line.substr(sp + 1);
+			}
+			size_t bar = line.find(" | ");
+			if (bar != std::string::npos) line = line.substr(0, bar);
 			auto w = Words(line);
 			if (w.empty() || w[0][0] == '#') continue;
-			if (w[0] == "T" && w.size() == 5) DoTls(w[1][0], atoll(w[2].c_str()), w[3], w[4]);
-			else if (w[0] == "F" && w.size() == 5) DoFramed(w[1][0], atoll(w[2].c_str()), w[3], w[4]);
-			else if (w[0] == "B" && w.size() == 5) DoBytes(w[1][0], atoll(w[2].c_str()), w[3], w[4]);
-			else if (w[0] == "J" && w.size() == 2) {
-				auto toks = Split(w[1], ',');
-				size_t pos = 0;
-				Value v;
-				if (!ParseTokens(toks, pos, v) || pos != toks.size()) { fprintf(stderr, "bad J line\n"); return 2; }
-				DoJsonValue(v);
-			}
-			else if (w[0] == "K" && w.size() == 2) DoJsonText(w[1]);
-			else { fprintf(stderr, "bad line: %s\n", line.c_str()); return 2; }
+			l_Batch.push_back(line);
 		}
 	} else {
 		return 2;
 	}
+	FlushBatch();
 	fflush(stdout);
 	_exit(0);
 }
